@@ -158,6 +158,22 @@ class SStr:
         parts.append(mkstr(cur))
         return parts
 
+    def partition(self, sep):
+        if not isinstance(sep, str) or len(sep) != 1:
+            raise Unmodelled("SStr.partition with non single-character separator")
+        for i, ch in enumerate(self.c):
+            if core_b(mkstr((ch,)) == sep):
+                return mkstr(self.c[:i]), sep, mkstr(self.c[i + 1:])
+        return self, "", ""
+
+    def rpartition(self, sep):
+        if not isinstance(sep, str) or len(sep) != 1:
+            raise Unmodelled("SStr.rpartition with non single-character separator")
+        for i in range(len(self.c) - 1, -1, -1):
+            if core_b(mkstr((self.c[i],)) == sep):
+                return mkstr(self.c[:i]), sep, mkstr(self.c[i + 1:])
+        return "", "", self
+
     def replace(self, old, new):
         if not (isinstance(old, str) and isinstance(new, str) and len(old) == 1):
             raise Unmodelled("SStr.replace with multi-character pattern")
